@@ -597,7 +597,14 @@ class Interp(StmtMixin, ObjMixin):
         return out
 
     def e_GeneratorExp(self, node, fr):
-        return self.e_ListComp(node, fr)
+        # a generator is a single-pass iterator: whatever one consumer has taken is gone for the next (`any(g) and not all(g)`).
+        # Its elements are computed up front (the element expressions of the verified code have no effects whose timing
+        # matters); sequences of symbolic length stay multi-pass arrays.
+        r = self.e_ListComp(node, fr)
+        if isinstance(r, list):
+            from .builtins_ import PyIterator
+            return PyIterator(r)
+        return r
 
     def e_SetComp(self, node, fr):
         out = set()
